@@ -47,6 +47,9 @@ ASSUMPTIONS = ["don't-care: `running` after a non-Quit exception",
 TERMINATORS = ['quit', 'quit_loop_world', 'quit_loop_default', 'harness',
                'quit_handler_raises']
 SWITCHES = ['switch', 'raise_switch', 'switch_self']
+# loop.switch(handle) called from inside a frame: no exception, the frame is
+# completed, the next iteration processes the new current world
+SOFT_SWITCH = 'loop_switch'
 
 
 def enum_cases():
@@ -80,16 +83,27 @@ def gen_random(rng):
     for _ in range(80):
         clock.append(float(t))
         t += rng.choice([0, 0, Fraction(1, 8), Fraction(1, 2), 1, 2, 16])
-    if rng.random() < 0.3:
+    kind = rng.random()
+    if kind < 0.3:
         clock = [int(c) for c in clock]
         clock.sort()
+    elif kind < 0.4:
+        # nanosecond-style integers above 2**53
+        base = 2 ** 60 + rng.randrange(10 ** 6)
+        clock = [['I', base + int(c * 8) * rng.choice([1, 1, 3])]
+                 for c in clock]
+        clock.sort(key=lambda x: x[1])
+    elif kind < 0.5:
+        # exact rationals that are not dyadic
+        clock = [['F', int(c * 24), 3 * 7] for c in clock]
     starts = []
     for _ in range(rng.randint(1, 4)):
         iters = rng.randint(1, 6)
         events = []
         for i in range(iters - 1):
             if rng.random() < 0.4:
-                events.append([i, rng.randrange(4), rng.choice(SWITCHES),
+                events.append([i, rng.randrange(4),
+                               rng.choice(SWITCHES + [SOFT_SWITCH]),
                                rng.randrange(nworlds)])
         events.append([iters - 1, rng.randrange(4), rng.choice(TERMINATORS)])
         starts.append(events)
@@ -109,12 +123,18 @@ def run_case(case):
     log = []            # ('proc', start, iteration, world, proc, dt) ...
     reads = []          # (start, value)
     state = {'start': 0, 'iter': -1, 'events': {}, 'cur': 0}
-    clock = list(case['clock'])
+    def reading(x):
+        if isinstance(x, list):
+            return x[1] if x[0] == 'I' else Fraction(x[1], x[2])
+        return x
+    clock = [reading(x) for x in case['clock']]
+    step = (clock[-1] - clock[0]) + 1
 
     def time_function():
         if len(reads) > 400:        # safety net: the script never ends
             raise HarnessError('clock exhausted')
-        value = clock[len(reads) % len(clock)] + 1000 * (len(reads) // len(clock))
+        value = clock[len(reads) % len(clock)] \
+            + step * (len(reads) // len(clock))
         reads.append((state['start'], value))
         state['iter'] += 1
         return value
@@ -162,6 +182,9 @@ def run_case(case):
     def fire(ev, wi):
         kind = ev[2]
         res.tags['event_kind'].add(kind)
+        if kind == SOFT_SWITCH:
+            loop.switch(handles[ev[3] % len(worlds)])
+            return
         if kind in SWITCHES:
             if kind == 'switch_self':
                 target = wi
@@ -248,6 +271,10 @@ def _install(state, case, events):
             entry['ran'] = j + 1
             entry['fault'] = ev
             kind = ev[2]
+            if kind == SOFT_SWITCH:
+                entry['ran'] = n            # the frame is completed
+                cur = ev[3] % len(case['worlds'])
+                entry['switch_to'] = cur
             if kind in SWITCHES:
                 if kind == 'switch_self':
                     cur = cur
@@ -257,7 +284,8 @@ def _install(state, case, events):
                     cur = (cur + 1) % len(case['worlds'])
                 entry['switch_to'] = cur
         model.append(entry)
-        if fired is not None and fired[1][2] not in SWITCHES:
+        if fired is not None and fired[1][2] not in SWITCHES \
+                and fired[1][2] != SOFT_SWITCH:
             break
     state['events'] = resolved
     state['model'] = model
